@@ -33,7 +33,8 @@ CHECKS = {
     "C15": dict(
         level="model_checking",
         text="WriteSession.tla models each write call as check / register / archive-at-the-worker's-cursor steps with one injected "
-             "fault per history (bad name, missing source, lstat/open raising, read raising after k bytes); TLC checks InStep, NoRetry, "
+             "fault per history (bad name, missing source, FIFO source, lstat/open raising, read raising after k bytes, source dead afterwards); writeall() "
+             "is run as a composite whose entries are recorded as calls of their own; TLC checks InStep, NoRetry, "
              "Committed, FaultRaised, AppendOnly exhaustively (<=3 calls, <=2 sessions) and, as negative control, that the same spec "
              "without the rollback step (the tree before the fix) violates InStep. Every history TLC enumerates is executed on the real "
              "SevenZipFile with faults injected through pathlib/stream subclasses; the recorded call/ret/close/reopen traces (plus random "
@@ -150,7 +151,7 @@ CHECKS = {
         text="Crash.tla models the archive file as cells (six signature-header fields, data units, packed header, header record), the "
              "write operations of create and append sessions in program order, a crash between or inside any operation and the last "
              "operation dropped or reordered; Accept is the reader's open pipeline; TLC checks CrashSafe/Honest for nine session shapes "
-             "(the one model-level counterexample - append without data rewriting an unchecksummed packed header in place - is replayed). "
+             "with the header CRC the repaired tree writes (negative control: without it an append that rewrites the packed header in place is unsafe). "
              "The real seek/write stream of create and append sessions (incl. empty and directory-only appends, raw/encoded/encrypted "
              "header) is recorded, its order compared with the specification's commit order, and EVERY byte-granular prefix (plus "
              "reordered-last-operation variants) is materialised and opened in a sandbox: error, or exactly the old or new members.",
@@ -180,9 +181,11 @@ CHECKS = {
              "counts). On the code: archives of every codec family are bit-flipped, truncated, spliced, and structure-mutated (every NUMBER "
              "field := 0,1,2,2^k-1,2^k,2^32,2^63,2^64-1; sections dropped/duplicated/swapped; all CRCs re-sealed so the parser is "
              "entered), read with wrong/missing passwords, under six call sequences (incl. extract twice without reset) in sandboxed "
-             "children: 10 s wall clock, 1 GiB address space, abnormal exit detected.",
-        note="'Bounded' is fixed as 10 s / 1 GiB for inputs of a few hundred bytes declaring < 1 MiB of output. PPMd archives: the model "
-             "size is an attacker-controlled allocation inside pyppmd (known finding).",
+             "children: 10 s wall clock, 1 GiB address space (a case that needs more is re-run with 8 GiB and judged by resident growth <= 512 MiB), "
+             "abnormal exit detected; compound attacks: whole count vectors, counts near the validation bound, 60000-150000 items really present, "
+             "self-referential packed headers, re-sealed start-header fields, coder properties.",
+        note="'Bounded' is fixed as 10 s and 1 GiB of address space / 512 MiB of resident growth. PPMd archives: pyppmd does not check its "
+             "model allocation and kills the interpreter when it fails (known finding).",
         technique="TLA+ specs (Stream liveness, HeaderRes) model-checked + structure-aware fault enumeration on the real reader under resource limits",
         design_ref="3.4, 4 C05",
     ),
